@@ -70,23 +70,31 @@ Definition no_frame0 (u : Z) (cs : list cue) : bool :=
 
 Definition chain_dom (chain : list fmt) (cs : list cue) : bool :=
   if existsb is_sami chain
-  then sorted_from (coarsest chain) 0 82800000000 cs      (* below 23 h: the SAMI tail stays below 24 h *)
-  else starts_apart (coarsest chain) 0 82800000000 cs && no_frame0 (coarsest chain) cs.
+  then sorted_from (coarsest chain) 0 86396000000 cs      (* below 24 h - 4 s: the SAMI tail stays below 24 h *)
+  else starts_apart (coarsest chain) 0 86400000000 cs && no_frame0 (coarsest chain) cs.
 
 Definition cues_eqb (a b : list cue) : bool :=
   (length a =? length b)%nat &&
   forallb (fun p => (fst (fst p) =? fst (snd p)) && (snd (fst p) =? snd (snd p))) (combine a b).
 
-(* equal at resolution u: a hop may keep more precision than its format's unit, never less *)
-Definition cues_close (u : Z) (a b : list cue) : bool :=
-  (length a =? length b)%nat &&
-  forallb (fun p => (fl u (fst (fst p)) =? fl u (fst (snd p))) && (fl u (snd (fst p)) =? fl u (snd (snd p)))) (combine a b).
+(* "the same times to the coarsest resolution on the chain": every observed time differs from the ORIGINAL time
+   by less than one unit (floor, ceiling or nearest are all within resolution; a hop may keep more precision).
+   SAMI does not write the end of a language's last cue: with SAMI on the chain the final end is not compared. *)
+Definition near (u a b : Z) : bool := (Z.abs (a - b) <? u).
+Fixpoint within (u : Z) (sami : bool) (cs obs : list cue) : bool :=
+  match cs, obs with
+  | [], [] => true
+  | c :: ct, o :: ot =>
+      near u (fst c) (fst o)
+      && (match ct with [] => sami | _ => false end || near u (snd c) (snd o))
+      && within u sami ct ot
+  | _, _ => false
+  end.
 
-(* property oracle: after the chain the times equal the closed form at the coarsest resolution on
-   the chain; a second pass changes nothing at all *)
+(* property oracle: pass 1 within resolution of the original; a second pass changes nothing at all *)
 Definition ok_chain (chain : list fmt) (cs : list cue) (pass1 pass2 : result (list cue)) : bool :=
   match pass1, pass2 with
-  | Ok o1, Ok o2 => cues_close (coarsest chain) (expected chain cs) o1 && cues_eqb o1 o2
+  | Ok o1, Ok o2 => within (coarsest chain) (existsb is_sami chain) cs o1 && cues_eqb o1 o2
   | _, _ => false
   end.
 
